@@ -2202,6 +2202,8 @@ def preprocess_file(
     if include_dirs is None:
         include_dirs = set()
     if file_path is not None:
+        # Search the folder of the file as well, without touching the caller's set
+        include_dirs = set(include_dirs)
         include_dirs.add(os.path.abspath(os.path.dirname(file_path)))
     # Files currently being preprocessed, to break circular #include chains
     include_stack = [] if include_stack is None else include_stack
